@@ -1196,6 +1196,10 @@ class SpecAPI(object):
     def s_is_closure(self, it, a, k):
         return isinstance(a[0], Closure)
 
+    def s_called(self, it, a, k):
+        """ ghost call log: was the repo function with this (suffix of its) name called during the function under contract? """
+        return any(isinstance(e, tuple) and e[0] == 'call' and e[1].endswith(a[0]) for e in it.ctx.log)
+
     def s_calls(self, it, a, k):
         fn = a[0]
         return [list(e['args']) for e in it.ctx.log if isinstance(e, dict) and e['kind'] == 'host' and e['fn'] is fn]
